@@ -28,7 +28,7 @@ REG = {
         ],
     },
     "C14": {
-        "families": [("M", "field_kernels"), ("K", "field_addsub")],
+        "families": [("M", "field_kernels"), ("K", "field_addsub"), ("S", "algebra", None, r"^C14\.")],
         "explanation": (
             "Bounded symbolic verification of mechanisms (DESIGN.md section 5, C14). Engine M translates the rustc MIR "
             "(dumped from /repo's working tree in this run, overflow checks on) of the Goldilocks kernels into SMT-LIB over "
@@ -43,7 +43,7 @@ REG = {
                         "generic extension-field algebra (Ob14.5/14.6) is decided by engine S when its family is registered"],
     },
     "C13": {
-        "families": [("M", "poseidon_kernels")],
+        "families": [("M", "poseidon_kernels"), ("S", "transcript", None, r"^C13\.")],
         "explanation": (
             "Bounded symbolic verification of mechanisms (DESIGN.md section 5, C13), integer-kernel part: the MIR of the "
             "Goldilocks frequency-domain mds_layer (mds_multiply_freq, fft/ifft blocks), the generic mds_row_shf / default "
@@ -86,7 +86,7 @@ REG = {
                         "shapes as listed per obligation"],
     },
     "C15": {
-        "families": [("K", "util_perm")],
+        "families": [("K", "util_perm"), ("S", "algebra", None, r"^C15\.")],
         "explanation": (
             "Bounded model checking (Kani/CBMC) of the compiled index/permutation helpers: reverse_index_bits and "
             "reverse_index_bits_in_place for every n = 2^k, k = 0..8, all contents and a symbolic position "
@@ -149,5 +149,20 @@ REG = {
         "trusted_base": TB_COMMON,
         "assumptions": ["the prover pipeline as a whole (FFT, Merkle, FRI prover, blinding, Keccak config) is exercised only by the repository's own tests",
                         "configuration sweep (rates, cap heights, zero-knowledge) is outside; standard recursion config / a tiny config only"],
+    },
+    "C04": {
+        "families": [("S", "transcript", None, r"^C04\.")],
+        "explanation": (
+            "Bounded symbolic verification of mechanisms (DESIGN.md section 5, C04). The real "
+            "ProofWithPublicInputs::get_challenges (circuit from the real builder, with and without a lookup table) and "
+            "StarkProofWithPublicInputs::get_challenges (sample Fibonacci STARK, with and without auxiliary polynomials) are "
+            "executed on proofs whose every element is a distinct symbol; the Poseidon permutation is a free function symbol "
+            "(random-oracle idealisation: Perm_k(s) = Perm_k(t) iff s = t lane-wise). For every component v and challenge "
+            "group c drawn after it in the protocol order: c(t) = c(t[v += delta]) implies delta = 0; no challenge's term "
+            "mentions a component that comes later; every FRI / degree / configuration parameter the protocol should bind "
+            "changes the challenges when altered. Counterexamples replay natively with the real Poseidon."),
+        "trusted_base": TB_COMMON + ["protocol-order table in symf/src/transcript.rs (oracle)"],
+        "assumptions": ["verifier-side transcripts only (the prover interleaves the same observes with heavy computation; prover/verifier agreement is what the existing end-to-end tests establish)",
+                        "recursive (in-circuit) challengers and compressed-proof get_challenges are outside"],
     },
 }
